@@ -14,8 +14,9 @@ Oracle: the physical signature of ref/gridmodel.physics() - per block (volume, r
 interface {block: own distance}, area, permeability direction, which block is the upper one, |cosine| -
 computed from the real grid before and after (names pushed through the rename map; field digits after a
 file round trip); MINC / embed volume bookkeeping from the statement.
-A state whose C08 invariant (dict/list agreement) is broken is C08's finding: it is counted, not
-reported here, and not expanded.
+The signature is read from blocklist/connectionlist and the objects' names only, so it is judged even where
+the by-name dictionaries disagree; a state with the right physics but a broken C08 invariant is counted and
+not expanded (it is C08's finding); lists that do not describe a network are reported as network-unreadable.
 """
 import contextlib
 import copy
@@ -40,8 +41,8 @@ RULE = ('per base grid (4 geometries x 3 atmosphere types): all block permutatio
 ASSUMPTIONS = [
     'contract: reorder gets complete lists; a pair is listed reversed only when the reversed name is not another connection',
     'contract: rename maps are one-to-one and avoid unrenamed present blocks',
-    'a state in which the C08 invariant is broken (e.g. rename with a swap on the current tree) is not judged and not '
-    'expanded by C09; it is counted under gated_by_C08_invariant',
+    'the physical signature is read from the ordered lists and the objects\' names only; a state whose physics is right but '
+    'whose C08 invariant (dict/list agreement) is broken is not expanded by C09 and counted under gated_by_C08_invariant',
     'file round trip compares to the digits of the fixed-column fields (10.4e: 1e-4 relative; centre 10.3e: 1e-3 relative; '
     'cosine 10.7f: 1e-7 absolute)',
     'MINC: default block and rock naming; atmos_volume default; the fracture-side distance of the first nested connection '
@@ -65,8 +66,8 @@ LEVEL_TEXT = ('Every member of the stated argument spaces is executed on the rea
               'and after is compared exactly (to field digits after a file round trip); small grids are crossed completely, '
               'larger ones to the stated deviation bound.')
 LEVEL_NOTE = ('Grids above 4 blocks are covered to transpositions and double reversals, not all permutations. MINC nested '
-              'distances and areas are not asserted (the statement fixes volumes, fractions and the chain only). States with '
-              'a broken C08 invariant are left to C08.')
+              'distances and areas are not asserted (the statement fixes volumes, fractions and the chain only). States with the '
+              'right physics but a broken C08 invariant are not expanded.')
 
 GEOS = ['R212', 'R222', 'R312', 'IRR6']
 _quiet = io.StringIO()
@@ -134,9 +135,17 @@ def geo_orders(gname):
 
 
 def base_grid(gname, atm):
+    """fromgeo grid with four extra rock types dealt round the underground blocks, so that a block's rock
+    type identifies it as well as its volume and centre do."""
     import t2grids
     with quiet():
-        return t2grids.t2grid().fromgeo(base_geo(gname, atm))
+        g = t2grids.t2grid().fromgeo(base_geo(gname, atm))
+        for i in range(4):
+            g.add_rocktype(t2grids.rocktype(name='rck%02d' % i, permeability=[1.e-15 * (i + 1)] * 3))
+        for i, blk in enumerate(g.blocklist):
+            if not blk.atmosphere:
+                blk.rocktype = g.rocktype['rck%02d' % (i % 4)]
+    return g
 
 
 def bases():
@@ -201,15 +210,41 @@ def do_reorder(grid, block_names, connection_names, geo=None):
                          connection_names=None if connection_names is None else [tuple(c) for c in connection_names])
 
 
+def readable(grid):
+    """The ordered lists alone must describe a network: unique block names, every connection joining two
+    objects of the block list.  Returns None or a description of what is unusable."""
+    try:
+        names = [b.name for b in grid.blocklist]
+        if len(set(names)) != len(names):
+            return 'two blocks of the block list carry the same name: %r' % (names,)
+        ids = set(id(b) for b in grid.blocklist)
+        for con in grid.connectionlist:
+            if len(con.block) != 2 or any(id(b) not in ids for b in con.block):
+                return 'connection %r joins an object that is not in the block list' % (con,)
+        pairs = [(c.block[0].name, c.block[1].name) for c in grid.connectionlist]
+        if len(set(pairs)) != len(pairs):
+            return 'two connections carry the same oriented name pair: %r' % (pairs,)
+    except Exception as e:
+        return 'reading the lists raised %r' % (e,)
+    return None
+
+
 def judge(site, cls, grid_before_model, grid_after, filetol=False):
-    """(violations, gated) for a transition whose expected physics is that of grid_before_model."""
-    bad = gated(grid_after)
+    """(violations, gated) for a transition whose expected physics is that of grid_before_model.
+    The physical signature is read from blocklist / connectionlist objects and their .name only, so it is
+    judged whether or not the by-name dictionaries agree (C08's invariant).  'gated' is set when the
+    physics is right but the C08 invariant is broken: such a state is C08's finding and is not expanded."""
+    bad = readable(grid_after)
     if bad:
-        return [], bad[0]
+        return [('C09|%s|network-unreadable|%s' % (site, cls), bad)], None
     diff = compare_physics(model_of(grid_after).physics(), grid_before_model.physics(), filetol)
     if diff:
-        return [('C09|%s|%s|%s' % (site, diff[0], cls), diff[1])], None
-    return [], None
+        clause = diff[0]
+        if 'rename_blocks' in site and clause in ('block-volume', 'block-rocktype', 'block-centre'):
+            clause = 'block-keeps-volume-rocktype-centre'      # a block under a wrong name: one failure, not three
+        return [('C09|%s|%s|%s' % (site, clause, cls), diff[1])], None
+    bad = gated(grid_after)
+    return [], (bad[0] if bad else None)
 
 
 def reorder_class(model, block_names, connection_names):
